@@ -93,28 +93,30 @@ Definition check_negotiation_needed (p : pc) : result bool :=
 
 (* ---------- the flag and the op ---------- *)
 
-Record nn := { n_pc : pc; n_flag : bool }.
-Definition nn_init (always_dc : bool) : nn := {| n_pc := pc_init always_dc; n_flag := false |}.
+(* n_panicked: checkNegotiationNeeded dereferenced a nil remote description
+   inside the queue's goroutine (the process would die) *)
+Record nn := { n_pc : pc; n_flag : bool; n_panicked : bool }.
+Definition nn_init (always_dc : bool) : nn :=
+  {| n_pc := pc_init always_dc; n_flag := false; n_panicked := false |}.
 
 (* one handler invocation: SignalingState() and [[IsClosed]] at that moment *)
 Record firing := { f_sig : sigst; f_closed : bool }.
 
 (* negotiationNeededOp; busy = "the queue is not empty when the op looks".
    Returns the state, the firings, and whether it set
-   updateNegotiationNeededFlagOnEmptyChain. A panic inside checkNegotiationNeeded
-   is reported as a firing in state SigClosed (never equal to a real one). *)
+   updateNegotiationNeededFlagOnEmptyChain. *)
 Definition nn_op (busy : bool) (s : nn) : nn * list firing * bool :=
   let p := n_pc s in
   if p_closed p then (s, [], false)                              (* 4.7.3.2.1 *)
   else if busy then (s, [], true)                                (* 4.7.3.2.2 *)
   else if negb (sig_eqb (p_sig p) Stable) then (s, [], false)    (* 4.7.3.2.3 *)
   else match check_negotiation_needed p with
-       | Ok false => ({| n_pc := p; n_flag := false |}, [], false)      (* 4.7.3.2.4 *)
+       | Ok false => ({| n_pc := p; n_flag := false; n_panicked := n_panicked s |}, [], false) (* 4.7.3.2.4 *)
        | Ok true =>
            if n_flag s then (s, [], false)                              (* 4.7.3.2.5 *)
-           else ({| n_pc := p; n_flag := true |},                       (* 4.7.3.2.6 *)
+           else ({| n_pc := p; n_flag := true; n_panicked := n_panicked s |},   (* 4.7.3.2.6 *)
                  [{| f_sig := p_sig p; f_closed := p_closed p |}], false) (* 4.7.3.2.7 *)
-       | _ => (s, [{| f_sig := SigClosed; f_closed := true |}], false)
+       | _ => ({| n_pc := p; n_flag := n_flag s; n_panicked := true |}, [], false)
        end.
 
 (* the ops already queued by the call, in order, each consuming a schedule bit *)
@@ -148,7 +150,8 @@ Definition drain (sched : list bool) (pending : nat) (s : nn) : nn * list firing
 Definition nstep (s : nn) (o : op) (sched : list bool) : nn * outcome * list firing :=
   let '(p', out, fx) := step (n_pc s) o in
   (* setDescription into stable: isNegotiationNeeded.Store(false), then onNegotiationNeeded *)
-  let s1 := {| n_pc := p'; n_flag := if fx_to_stable fx then false else n_flag s |} in
+  let s1 := {| n_pc := p'; n_flag := if fx_to_stable fx then false else n_flag s;
+               n_panicked := n_panicked s |} in
   let (s2, fs) := drain sched (fx_triggers fx) s1 in
   (s2, out, fs).
 
